@@ -83,9 +83,9 @@ package registration
 //@   nopanic[C14]
 //@   ensures[* failclosed] err != nil ==> ret == nil
 //@   ensures[C06,C13,C01,* use] err == nil ==> reqInfo != nil && tokenNonce != nil && old(StHas("token", id)) && !StHas("token", id) && ret != nil && ret.Id == k
-//@   ensures[C06 unexpired] err == nil && old(StGet("token", id)).WrappingKeyId == "" ==>
+//@   ensures[C06,C01 unexpired] err == nil && old(StGet("token", id)).WrappingKeyId == "" ==>
 //@   |   tokenTimeClear(id) + opts(opt).WithMaximumServerLedActivationTokenLifetime >= now(0)
-//@   ensures[C06 unexpiredsealed] err == nil && old(StGet("token", id)).WrappingKeyId != "" ==> opts(opt).WithStorageWrapper != nil
+//@   ensures[C06,C01 unexpiredsealed] err == nil && old(StGet("token", id)).WrappingKeyId != "" ==> opts(opt).WithStorageWrapper != nil
 //@   |   && wOkS(opts(opt).WithStorageWrapper, blobCt(old(StGet("token", id)).CreationTimeMarshaled), id)
 //@   |   && unMts(wPtS(opts(opt).WithStorageWrapper, blobCt(old(StGet("token", id)).CreationTimeMarshaled), id))
 //@   |        + opts(opt).WithMaximumServerLedActivationTokenLifetime >= now(0)
